@@ -11,4 +11,4 @@ if [ ! -f .deps/.ok ]; then
       --target .deps z3-solver
   touch .deps/.ok
 fi
-PYTHONPATH=/verif/.deps /venv/bin/python -c "import z3; print('z3', z3.get_version_string())"
+PYTHONPATH=$(pwd)/.deps /venv/bin/python -c "import z3; print('z3', z3.get_version_string())"
